@@ -435,6 +435,36 @@ func checkC15(p *Program, r *Reporter) {
 				}
 			}
 		}
+		// when the failure is carried by a flag, the mismatch branch sets it to true unconditionally
+		condFlag := ""
+		trueSide := equal.Block().Succs[0]
+		for _, b := range ef.Blocks {
+			for _, in := range b.Instrs {
+				ph, ok := in.(*ssa.Phi)
+				if !ok || ph.Type().String() != "bool" {
+					continue
+				}
+				for i, e := range ph.Edges {
+					pred := b.Preds[i]
+					if !(pred == trueSide || trueSide.Dominates(pred)) {
+						continue
+					}
+					if c, isC := e.(*ssa.Const); isC && c.Value != nil && c.Value.String() == "true" {
+						continue
+					}
+					if e == ssa.Value(ph) {
+						continue
+					}
+					// a flag computed in the mismatch branch from something else than 'true'
+					if _, isConst := e.(*ssa.Const); !isConst {
+						condFlag = p.pos(instrPos(pred.Instrs[len(pred.Instrs)-1]))
+					}
+				}
+			}
+		}
+		if condFlag != "" && !isErrorExit(trueSide) && !ffC.errOnly[trueSide] {
+			r.Violate("E5-ADMISSION", shortFn(cons), "equal-duration-flag", condFlag, "in the branch taken when a duration differs the failure flag is not set to true but computed from another condition: some differing representations only produce a warning and the asset is admitted with wrong wrap times", nil)
+		}
 		okUp, whyUp := helperErrReturned(ef)
 		r.Decide(flagErr && okUp, "E5-ADMISSION", shortFn(cons), "equal-duration-test", p.pos(instrPos(equal)), "a differing duration ends in an error that consolidateAsset returns",
 			"a representation whose duration differs from the loop duration does not make consolidation fail "+whyUp, nil)
